@@ -242,18 +242,25 @@ def equivalent_dnf(pos_paths, spec, main=None, extra_atoms=(), spec_consts=()):
   if main_atom is None:
     tests = [0]
   checked = 0
+  # the other symbolic operands are tried in every relative order (a condition such as `h >= n` between two of them must not be invisible because one
+  # fixed assignment happens to satisfy it)
+  import itertools
+  orders = list(itertools.permutations(others)) if 1 < len(others) <= 4 else [tuple(others)]
   try:
-    for t in tests:
-      assign = dict(base)
-      if main_atom is not None:
-        assign[main_atom] = t
-      val = Valuation(assign)
-      code = any(all(eval_cond(c, val) == pol for c, pol in path) for path in pos_paths)
-      want = bool(spec(val))
-      checked += 1
-      if code != want and not (ONE_SIDED and not code):
-        return False, "predicates differ at %s = %d: code %s, specification %s" % (
-            repr(main_atom) if main_atom is not None else "-", t, "acts" if code else "does not act", "requires it" if want else "forbids it")
+    for order in orders:
+      base_o = {a: span * (i + 2) for i, a in enumerate(order)}
+      for t in tests:
+        assign = dict(base_o)
+        if main_atom is not None:
+          assign[main_atom] = t
+        val = Valuation(assign)
+        code = any(all(eval_cond(c, val) == pol for c, pol in path) for path in pos_paths)
+        want = bool(spec(val))
+        checked += 1
+        if code != want and not (ONE_SIDED and not code):
+          return False, "predicates differ at %s = %d%s: code %s, specification %s" % (
+              repr(main_atom) if main_atom is not None else "-", t,
+              (" with " + " < ".join(repr(a)[:40] for a in order)) if len(order) > 1 else "", "acts" if code else "does not act", "requires it" if want else "forbids it")
   except Unknown as u:
     return None, "outside the decidable fragment: %s" % u
   return True, "equivalent on all %d region representatives (constants %s%s)" % (
